@@ -123,10 +123,10 @@ fn usize_list(l: &[usize]) -> Val {
 
 /// model-level result of one candidate edit (mirrors apply_word / apply_excl of C15_Model.v;
 /// used only for tags: which kind was observed, and whether re-segmentation moved a seam)
-fn candidates(cfg: &Cfg, w: &[String], ex: &[usize]) -> Vec<(&'static str, Vec<String>, HashSet<usize>)> {
+fn candidates(cfg: &Cfg, w: &[String], ex: &[usize]) -> Vec<(&'static str, usize, Vec<String>, HashSet<usize>)> {
     let n = w.len();
     let exs: HashSet<usize> = ex.iter().cloned().collect();
-    let mut out = vec![("same", w.to_vec(), exs.clone())];
+    let mut out = vec![("same", 0usize, w.to_vec(), exs.clone())];
     let g = cfg.g;
     if cfg.kinds[0] {
         for i in 0..=n {
@@ -138,7 +138,7 @@ fn candidates(cfg: &Cfg, w: &[String], ex: &[usize]) -> Vec<(&'static str, Vec<S
                     nw.extend_from_slice(&w[i..]);
                     let mut ne: HashSet<usize> = ex.iter().map(|&p| if p >= i { p + ec.len() } else { p }).collect();
                     ne.extend(i..i + ec.len());
-                    out.push((if ec.is_empty() { "ins0" } else if ec.len() > 1 { "insN" } else { "ins" }, nw, ne));
+                    out.push((if ec.is_empty() { "ins0" } else if ec.len() > 1 { "insN" } else { "ins" }, i, nw, ne));
                 }
             }
         }
@@ -148,7 +148,7 @@ fn candidates(cfg: &Cfg, w: &[String], ex: &[usize]) -> Vec<(&'static str, Vec<S
             let mut nw = w[..i].to_vec();
             nw.extend_from_slice(&w[i + 1..]);
             let ne: HashSet<usize> = ex.iter().map(|&p| if p > i { p - 1 } else { p }).collect();
-            out.push(("del", nw, ne));
+            out.push(("del", i, nw, ne));
         }
     }
     if cfg.kinds[2] {
@@ -162,7 +162,7 @@ fn candidates(cfg: &Cfg, w: &[String], ex: &[usize]) -> Vec<(&'static str, Vec<S
                     let mut ne: HashSet<usize> =
                         ex.iter().map(|&p| if p > i { p + ec.len() - 1 } else { p }).collect();
                     ne.extend(i..i + ec.len());
-                    out.push((if ec.is_empty() { "rep0" } else if ec.len() > 1 { "repN" } else { "rep" }, nw, ne));
+                    out.push((if ec.is_empty() { "rep0" } else if ec.len() > 1 { "repN" } else { "rep" }, i, nw, ne));
                 }
             }
         }
@@ -174,7 +174,7 @@ fn candidates(cfg: &Cfg, w: &[String], ex: &[usize]) -> Vec<(&'static str, Vec<S
             let mut ne = exs.clone();
             ne.insert(i);
             ne.insert(i + 1);
-            out.push(("swap", nw, ne));
+            out.push(("swap", i, nw, ne));
         }
     }
     out
@@ -282,14 +282,27 @@ fn derive(cfg: &Cfg, w0: &str, ex0: &[usize], k: usize, cache: &mut Cache) -> De
                 let nexset: HashSet<usize> = nexv.iter().cloned().collect();
                 let expl: Vec<_> = candidates(cfg, &cl, &ex)
                     .into_iter()
-                    .filter(|(_, mw, me)| mw.concat() == nw && *me == nexset)
+                    .filter(|(_, _, mw, me)| mw.concat() == nw && *me == nexset)
                     .collect();
-                if let Some((kind, _, _)) = expl.first() {
+                if let Some((kind, idx, _, _)) = expl.first() {
                     tagset.insert(format!("obs:{kind}"));
-                    if *kind != "same" && !ex.is_empty() {
-                        nt = true;
+                    if *kind != "same" {
+                        // boundary coverage: edits at the first / last position (the <bow>/<eow> contexts)
+                        if *idx == 0 {
+                            tagset.insert(format!("first:{}", &kind[..3]));
+                        }
+                        let last = if kind.starts_with("ins") { cl.len() } else if *kind == "swap" { cl.len() - 2 } else { cl.len() - 1 };
+                        if *idx == last {
+                            tagset.insert(format!("last:{}", &kind[..3]));
+                        }
+                        if nw.is_empty() {
+                            tagset.insert("to-empty".into());
+                        }
+                        if !ex.is_empty() {
+                            nt = true;
+                        }
                     }
-                    if !expl.iter().any(|(_, mw, _)| *mw == ncl) {
+                    if !expl.iter().any(|(_, _, mw, _)| *mw == ncl) {
                         seam = true;
                     }
                 } else {
@@ -478,17 +491,17 @@ fn gen_cfg(rng: &mut Rng, w0: &str, g: bool, seam: bool) -> Cfg {
     let cl = split(w0, g);
     let n = cl.len() as isize;
     let mut kinds = [false; 4];
-    match rng.below(10) {
+    match rng.below(20) {
         0 => {}
-        1..=3 => kinds[rng.below(4)] = true,
-        4..=6 => kinds = [true; 4],
+        1..=7 => kinds[rng.below(4)] = true,
+        8..=13 => kinds = [true; 4],
         _ => {
             for k in kinds.iter_mut() {
                 *k = rng.chance(1, 2);
             }
         }
     }
-    let dense = rng.below(4); // 0: sparse table, 1-2: half of the contexts, 3: every context of the word
+    let dense = rng.below(5).min(3); // 0: sparse table, 1-2: half of the contexts, 3: every context of the word
     let mut itab = vec![];
     for i in 0..=n {
         if dense == 3 || (dense > 0 && rng.chance(1, 2)) || rng.chance(1, 6) {
@@ -544,9 +557,13 @@ fn gen_cfg(rng: &mut Rng, w0: &str, g: bool, seam: bool) -> Cfg {
 
 fn gen_excl(rng: &mut Rng, n: usize) -> Vec<usize> {
     let mut ex = vec![];
-    match rng.below(10) {
+    match rng.below(12) {
         0 | 1 | 2 => {}
-        3 => ex.extend(0..n),
+        3 => {
+            if rng.chance(1, 3) {
+                ex.extend(0..n)
+            }
+        }
         4 => {
             // everything but one position
             if n > 0 {
@@ -614,6 +631,7 @@ impl Prop for C15 {
                 }
             }
         }
+        let nseeds: u64 = std::env::var("C15_EXH_SEEDS").ok().and_then(|s| s.parse().ok()).unwrap_or(12);
         let mut out = vec![];
         for len in 0..=3usize {
             for wbits in 0..(1usize << len) {
@@ -622,7 +640,7 @@ impl Prop for C15 {
                     let ex0: Vec<usize> = (0..len).filter(|i| exbits >> i & 1 == 1).collect();
                     for kbits in 0..16usize {
                         for fd in [false, true] {
-                            for seed in 0..6u64 {
+                            for seed in 0..nseeds {
                                 let cfg = Cfg {
                                     g: seed % 2 == 1,
                                     kinds: [kbits & 1 != 0, kbits & 2 != 0, kbits & 4 != 0, kbits & 8 != 0],
